@@ -77,7 +77,7 @@ SCHED_CORPUS = [
 
 def _gen_sched(rng):
     """driver side: rings whose delays are split over several delay adapters per link"""
-    case = sc.gen_ring(rng, sufficient=True)
+    case = sc.gen_ring(rng, sufficient=True) if rng.random() < 0.6 else sc.gen_ring_staggered(rng)
     return {"sched": case}
 
 
